@@ -44,6 +44,8 @@ type ScalarCase struct {
 	// NoModel: the rule text is malformed (an unbalanced quote): what it means is not documented, so
 	// only the metamorphic oracles apply (same call alone / in a fresh state / concurrently)
 	NoModel bool `json:"nomodel,omitempty"`
+	// Bare: url: an EMPTY value of ours is written as the bare name, without '='
+	Bare bool `json:"bare,omitempty"`
 	// Plus: url (the raw form): blanks of our value are written as '+' (form encoding) - the URL
 	// then holds no '%' at all, and the value is still the one with blanks
 	Plus bool `json:"plus,omitempty"`
@@ -113,7 +115,8 @@ func (c *ScalarCase) carrierOK() bool {
 		}
 		s := c.Val.S
 		if c.Val.SB != nil {
-			return false
+			// bytes that are no valid UTF-8 travel percent-encoded (text in GBK / Latin-1); the raw form cannot carry them
+			return c.Carrier == "urlenc" && urlSafe(strings.NewReplacer("#", "", "?", "").Replace(strings.ToValidUTF8(string(c.Val.SB), "")))
 		}
 		if c.Carrier == "urlenc" {
 			// in the wholly percent-encoded form '#' and '?' inside a value are unambiguous
@@ -353,7 +356,11 @@ func (c *ScalarCase) prepare() func() error {
 			for _, a := range c.Again {
 				ours = append(ours, scalarKey+"="+a)
 			}
-			ours = append(ours, scalarKey+"="+v.String())
+			if c.Bare && v.String() == "" {
+				ours = append(ours, scalarKey) // written bare, without '=': an empty value all the same
+			} else {
+				ours = append(ours, scalarKey+"="+v.String())
+			}
 			if c.Plus && c.Carrier == "url" {
 				for i := range ours {
 					ours[i] = strings.ReplaceAll(ours[i], " ", "+")
